@@ -239,8 +239,8 @@ func cmdCheck(args []string) {
 		}
 		// only this property's obligations are solved
 		for _, o := range res.Obls {
-			if o.Status == "" && !(has(o.Props, *prop)) {
-				o.Status = "skipped"
+			if !has(o.Props, *prop) && (o.Status == "" || o.Solver == "simplifier") {
+				o.Status = "skipped" // belongs to another property's check
 			}
 		}
 		extraModelTerms = modelTerms(res)
